@@ -24,22 +24,23 @@ Definition keyed (d : list (dkey * obj)) : Prop := forall k o, In (k, o) d -> k 
 
 Lemma dfold_inv : forall l d,
   NoDup (map fst d) -> keyed d ->
-  let D := fold_left dstep l d in
-  NoDup (map fst D) /\ keyed D /\
-  (forall k o, In (k, o) D -> In (k, o) d \/ In o l) /\
-  (forall o, In o l -> exists o', In (dkey_of o, o') D) /\
-  (forall k o, In (k, o) d -> exists o', In (k, o') D).
+  NoDup (map fst (fold_left dstep l d)) /\ keyed (fold_left dstep l d) /\
+  (forall k o, In (k, o) (fold_left dstep l d) -> In (k, o) d \/ In o l) /\
+  (forall o, In o l -> exists o', In (dkey_of o, o') (fold_left dstep l d)) /\
+  (forall k o, In (k, o) d -> exists o', In (k, o') (fold_left dstep l d)).
 Proof.
   induction l as [|x l IH]; intros d ND K; simpl.
-  - repeat split; auto. intros o []. intros k o H. eauto.
+  - split; auto. split; auto. split; auto. split.
+    + intros o [].
+    + intros k o H. eauto.
   - assert (NoDup (map fst (dstep d x))) as ND1 by (apply dict_set_NoDup; auto; apply dkey_eqb_eq).
     assert (keyed (dstep d x)) as K1.
-    { intros k o H. apply In_dict_set in H; auto; try apply dkey_eqb_eq.
-      destruct H as [[H1 H2]|[H1 H2]]; subst; auto. }
+    { intros k o H. apply (In_dict_set _ _ dkey_eqb dkey_eqb_eq) in H; auto.
+      destruct H as [[H1 H2]|[H1 H2]]; [subst; auto | apply (K _ _ H2)]. }
     destruct (IH _ ND1 K1) as [A [B [C [D E]]]].
     split; auto. split; auto. split; [|split].
     + intros k o H. apply C in H. destruct H as [H|H]; auto.
-      apply In_dict_set in H; auto; try apply dkey_eqb_eq.
+      apply (In_dict_set _ _ dkey_eqb dkey_eqb_eq) in H; auto.
       destruct H as [[H1 H2]|[H1 H2]]; subst; auto.
     + intros o [H|H]; auto. subst o.
       apply (E (dkey_of x) x). apply In_dict_set_same. apply dkey_eqb_eq.
@@ -115,7 +116,7 @@ Proof.
       destruct (IHP rs2 eq_refl) as [rs1 [E1 P1]]. exists (r :: rs1). subst. simpl. auto.
     - destruct rs2 as [|r1 [|r2 rs2]]; try discriminate. simpl in E. inversion E; subst.
       exists (r2 :: r1 :: rs2). split; auto. constructor.
-    - destruct (IHP2 _ E) as [rsm [Em Pm]]. destruct (IHP1 _ Em) as [rs1 [E1 P1]].
+    - destruct (IHP2 _ E) as [rsm [Em Pm]]. destruct (IHP1 _ Em) as [rs1 [E1 Q1]].
       exists rs1. split; auto. eapply Permutation_trans; eauto. }
   destruct (G _ _ P2 rs eq_refl) as [rs' [E' P']].
   exists rs'. split; [apply collect_ok_iff; auto | apply Permutation_sym; auto].
@@ -241,6 +242,37 @@ Section Composite.
     ms <> [] -> collect (fun m => s_query m (af ++ cf) q) ms = Ok rs ->
     cquery af ms cf q = Ok (dedupe (concat rs)).
   Proof. intros af [|m ms] cf q rs Hne H; [contradiction|]. unfold cquery. rewrite H. reflexivity. Qed.
+
+  (* each distinct (id, version) of the members' answers once, nothing else *)
+  Lemma union_once : forall (rs : list (list obj)),
+    (forall o, In o (dedupe (concat rs)) -> exists r, In r rs /\ In o r) /\
+    (forall r o, In r rs -> In o r -> exists o', In o' (dedupe (concat rs)) /\ dkey_of o' = dkey_of o) /\
+    NoDup (map dkey_of (dedupe (concat rs))).
+  Proof.
+    intros rs. destruct (dedupe_spec (concat rs)) as [A [B C]]. split; [|split]; auto.
+    - intros o H. apply A in H. apply in_concat in H. destruct H as [r [R1 R2]]. eauto.
+    - intros r o R1 R2. apply B. apply in_concat. eauto.
+  Qed.
+
+  Theorem call_distinct_once_l : forall af ms cf id rs,
+    ms <> [] -> collect (fun m => s_all m (af ++ cf) id) ms = Ok rs ->
+    exists res, call af ms cf id = Ok res /\
+      (forall o, In o res -> exists r, In r rs /\ In o r) /\
+      (forall r o, In r rs -> In o r -> exists o', In o' res /\ dkey_of o' = dkey_of o) /\
+      NoDup (map dkey_of res).
+  Proof.
+    intros af ms cf id rs Hne H. rewrite (call_union _ _ _ _ _ Hne H). eexists. split; [reflexivity|]. apply union_once.
+  Qed.
+
+  Theorem cquery_distinct_once_l : forall af ms cf q rs,
+    ms <> [] -> collect (fun m => s_query m (af ++ cf) q) ms = Ok rs ->
+    exists res, cquery af ms cf q = Ok res /\
+      (forall o, In o res -> exists r, In r rs /\ In o r) /\
+      (forall r o, In r rs -> In o r -> exists o', In o' res /\ dkey_of o' = dkey_of o) /\
+      NoDup (map dkey_of res).
+  Proof.
+    intros af ms cf q rs Hne H. rewrite (cquery_union _ _ _ _ _ Hne H). eexists. split; [reflexivity|]. apply union_once.
+  Qed.
 
   (* ---------- attached filters reach every member ---------- *)
   Lemma all_hold_app : forall a b o, all_hold (a ++ b) o = all_hold a o && all_hold b o.
